@@ -136,17 +136,18 @@ CHECKS["C17"] = dict(
     technique="data-structure invariant evaluated exhaustively on the bundled data + per-country translation validation "
               "of the regex (z3)")
 CHECKS["C18"] = dict(
-    category="exploration",
-    text="BOUNDED stand-in: the real merge_dicts is run on every pair of nested dict shapes over a small key universe "
-         "(depth <= 2/3) against the recursive spec Merge incl. the frame condition, and symbolically (pyvc) with "
-         "symbolic leaves on all depth-2 shape pairs; parse_v2 on enumerated documents; registry.get is compared with an "
-         "independent name-ordered fold of the bundled files (exhaustive for this tree); overlay + v2 files are "
-         "exercised in a scratch copy of the package.",
-    design_ref="DESIGN.md C18 (fallback)",
-    note="Not a proof: the unbounded argument (loop invariants over abstract maps) is not built; bounds stated in the "
-         "evidence. json / file system assumed.",
-    technique="bounded stand-in for the contract of merge_dicts/parse_v2/get: small-scope enumeration against the "
-              "sidecar spec + symbolic-leaf execution of the real body (pyvc)")
+    category="proof",
+    text="merge_dicts: the real body is executed on two ABSTRACT dictionaries (any size, keys, values; pyvc abstract "
+         "maps): both loops run for one generic key, the recursive call goes through the contract (induction on nesting "
+         "depth), and the result is proved pointwise equal to the deep later-wins Merge, arguments unwritten. "
+         "registry.get is compared with an independent name-ordered fold (Merge / concatenation / v2 expansion) of the "
+         "bundled files - exhaustive for this tree - and of a scratch package with order-sensitive overlay files; "
+         "parse_v2 and small-scope merge_dicts enumerations are bounded cross-checks.",
+    design_ref="DESIGN.md C18, 0.2",
+    note="Proved: the contract of merge_dicts for all dictionaries. Bounded / exhaustive-on-bundled: parse_v2, the "
+         "file fold of get(). json / file system assumed.",
+    technique="contract-based deductive verification of merge_dicts over abstract maps (pyvc generic-key loops, z3) + "
+              "bounded stand-ins for parse_v2/get")
 
 CHECKS["C16"] = dict(
     category="proof",
